@@ -313,6 +313,16 @@ func c07Exits(c *Ctx, r *R) {
 	// (1) resume only after a fix was found (path-sensitive on the `fixed` flag)
 	mustPassFrom(c, r, "resume-needs-fix", x.lastGood.Instr, resume, eng.NewCut().AddInstrs(fix.Instr),
 		"verification resumes / succeeds only after a fix entry was found", "after a revoked violation verification can resume or succeed although no fix entry was found")
+	// (1b) the same from the moment the violation is tolerated: a revoked violation with nothing
+	// after it (no candidate fix at all) must not fall out of the loop into success
+	entryP := sameObj(x.verify.Arg(4))
+	for _, e := range eng.BoolEdges(fn, skippedByOf(x, entryP), true) {
+		if p := eng.FindPath(e.To(), 0, resume, eng.NewCut().AddInstrs(fix.Instr)); p != nil {
+			r.Bad("tolerated-needs-fix", pos(p.Target), "after a revoked violation verification can succeed / go on although no fix entry followed (e.g. the revoked entry is the last one in the range); witness %s", c.DescribePath(p))
+		} else {
+			r.Ok("tolerated-needs-fix", x.verify.Pos(), "from the point a violation is tolerated, success / the next entry is reached only through a fix")
+		}
+	}
 	// (2) and only if no unskipped intermediate entry exists
 	empty := eng.RelEdges(fn, token.EQL, eng.PLen(func(v ssa.Value) bool {
 		return strings.HasSuffix(v.Type().String(), "[]*"+eng.Module+"/pkg/rsl.ReferenceEntry")
